@@ -19,6 +19,8 @@ import (
 	"github.com/traefik/yaegi/stdlib"
 	"verif/engine/par"
 	"verif/engine/report"
+	"verif/engine/twin"
+	_ "verif/gen/c07cases"
 )
 
 type S struct {
@@ -756,7 +758,11 @@ func main() {
 		}
 		return sigCase(k)
 	}
+	topt := twin.Options{Use: []interp.Exports{stdlib.Symbols}}
 	if r.Replay != "" {
+		if b, err := os.ReadFile(r.Replay); err == nil && strings.Contains(string(b), "\"key\": \"F type=") {
+			twin.Replay(r, topt) // a failure of the argument-form family (E2 twins)
+		}
 		var cs []fail
 		if err := report.ReadReplay(r.Replay, &cs); err != nil {
 			fmt.Fprintln(os.Stderr, "HARNESS-ERROR:", err)
@@ -784,6 +790,8 @@ func main() {
 		}
 		os.Exit(0)
 	}
+	// argument-form family: generated twins, native vs interpreted
+	twin.RunAll(r, nil, func(c twin.Case, n, i twin.Obs) string { return c.Name }, topt, par.Opts{})
 	res := par.Map(len(ks), func(i int) *[]fail {
 		par.Count("signatures", 1)
 		par.Distinct("shapes", fmt.Sprint(ks[i].Params, ks[i].Rets, ks[i].Var, ks[i].Name))
@@ -792,7 +800,7 @@ func main() {
 			return nil
 		}
 		return &f
-	}, par.Opts{})
+	}, par.Opts{Name: "sig"})
 	for _, fs := range res.Outs {
 		for _, f := range fs {
 			r.Fail(report.Failure{Key: f.Key, What: f.What, Case: f})
@@ -801,12 +809,12 @@ func main() {
 	for _, a := range res.Abnormal {
 		r.Fail(report.Failure{Key: ks[a.Idx].desc() + " | " + a.Kind, What: ks[a.Idx].desc() + ": interpreter " + a.Kind, Case: fail{K: ks[a.Idx], What: a.Kind}})
 	}
-	r.Set("evaluations", res.Counts["calls"])
+	r.Add("evaluations", res.Counts["calls"])
 	r.Set("signature_value_cases", res.Counts["signatures"])
-	r.Set("distinct_nontrivial", len(res.Sets["shapes"]))
+	r.Add("distinct_nontrivial", int64(len(res.Sets["shapes"])))
 	r.Set("type_alphabet", len(T))
 	r.Set("exhaustive", len(res.Abnormal) == 0)
-	r.Set("rule", "all signatures with <= 2 parameters over a 20-type alphabet (8 basic kinds, host structs incl. embedded/pointer/slice fields, pointer, array, slices, map, error, interface{}, two function types) x {0, 1 result; 2 results on the (T,error)/(T,T) diagonals - thorough: all pairs} x 3 value patterns (zero values, non-zero, alternating); variadic variants; arity 3-4 / 3 results over 6 class representatives; both directions with recorders on both sides; 12 special scenarios (mutation through references, callbacks crossing twice, re-entrant and concurrent activations of one exported wrapper, returned closures, interpreted types as fmt.Stringer/error, shared variables); distinct_nontrivial = distinct signature shapes")
+	r.Set("rule", "all signatures with <= 2 parameters over a 20-type alphabet (8 basic kinds, host structs incl. embedded/pointer/slice fields, pointer, array, slices, map, error, interface{}, two function types) x {0, 1 result; 2 results on the (T,error)/(T,T) diagonals - thorough: all pairs} x 3 value patterns (zero values, non-zero, alternating); variadic variants; arity 3-4 / 3 results over 6 class representatives; both directions with recorders on both sides; argument-form family F (E2 twins): 13 value types x 22 ways of writing the argument of a host call (variable, literal, call, multi-result forwarding, field, element, method / closure result, assertion, dereference, receive, and the same with the static type of a script-defined interface) x typed host parameters (int, string, []int, error, func, *int, interface{}, ...interface{}, (interface{}, int)) x 4 statement forms; 12 special scenarios (mutation through references, callbacks crossing twice, re-entrant and concurrent activations of one exported wrapper, returned closures, interpreted types as fmt.Stringer/error, shared variables); distinct_nontrivial = distinct signature shapes")
 	r.Assumptions = []string{"values are compared through an address-free rendering; function values by their behaviour on a fixed argument", "host functions of arbitrary signature are built with reflect.FuncOf/MakeFunc"}
 	for _, i := range []int{5, len(ks) / 2, len(ks) - 1} {
 		r.Sample(ks[i].desc())
